@@ -112,8 +112,6 @@ theorem Good.frame_tok_unique {s : State} (g : Good s) {t t' : Nat} {f f' : Fram
     (logMove s t f h hs rest).late = s.late := rfl
 @[simp] theorem logMove_log (s : State) (t : Nat) (f : Frame) (h : Hook) (hs : List Hook) (rest : List Frame) :
     (logMove s t f h hs rest).log = { tok := h.tok, proc := f.proc, kind := h.kind, err := f.err } :: s.log := rfl
-@[simp] theorem logMove_wgPanic (s : State) (t : Nat) (f : Frame) (h : Hook) (hs : List Hook) (rest : List Frame) :
-    (logMove s t f h hs rest).wgPanic = s.wgPanic := rfl
 theorem logMove_threads (s : State) (t : Nat) (f : Frame) (h : Hook) (hs : List Hook) (rest : List Frame) :
     (logMove s t f h hs rest).threads =
       (setThread s t { s.threads t with stack := { f with rem := hs } :: rest }).threads := rfl
@@ -382,12 +380,8 @@ theorem ord_logMove {s : State} (g : Good s) (o : Ord s) (t : Nat) (f : Frame) (
 
 /-! ### assembling the step -/
 
-theorem ord_waitDone {s : State} (g : Good s) (o : Ord s) (p : Nat) : Ord (waitDone s p) := by
-  unfold waitDone
-  dsimp only
-  split
-  · exact ord_inert o ⟨rfl, rfl, fun _ => ⟨rfl, rfl, rfl, rfl⟩, fun _ => rfl, rfl, rfl, rfl, g.pcOK⟩ rfl
-  · exact ord_inert o (inert_setProc s g p _ rfl rfl rfl rfl) rfl
+theorem ord_waitDone {s : State} (g : Good s) (o : Ord s) (p : Nat) : Ord (waitDone s p) :=
+  ord_inert o (inert_waitDone s g p) (waitDone_ghost s p).2.2.2.2.2
 
 theorem ord_startOp {s : State} (g : Good s) (o : Ord s) (t : Nat) (op : Op) : Ord (startOp s t op) := by
   cases op with
@@ -403,7 +397,7 @@ theorem ord_startOp {s : State} (g : Good s) (o : Ord s) (t : Nat) (op : Op) : O
   | fork p =>
     simp only [startOp]; split
     · rename_i hp
-      have i1 := inert_setProc s g p { s.procs p with waitCnt := (s.procs p).waitCnt + 1 } rfl rfl rfl rfl
+      have i1 := inert_setProc s g p { s.procs p with children := (s.procs p).children + 1 } rfl rfl rfl rfl
       have g1 := good_inert g i1
       exact ord_inert (ord_inert o i1 rfl) (inert_setPc _ g1 t (.forkReg p) (by intro q hq; cases hq; exact hp)) rfl
     · exact o
@@ -451,8 +445,9 @@ theorem ord_contStep {s : State} (g : Good s) (o : Ord s) (t : Nat) (ht : t < s.
   · rename_i p hpc
     exact ord_forkReg g o t p (g.pcOK t p hpc)
   · split
+    · exact ord_inert o (inert_setPc s g t (.waiting _) (by intro q hq; cases hq)) rfl
     · exact ord_inert o (inert_setPc s g t .idle (by intro q hq; cases hq)) rfl
-    · exact o
+  · exact o
   · split
     · exact o
     · rename_i f rest hst
